@@ -134,7 +134,8 @@ def run(ctx, replay=None):
         # which cases the driver counted as non-trivial is recomputed here on the text with the same rule
         for cname, cl in cases:
             total += 1
-            text = "".join(cl)
+            # canonical text: the kind of a fetch error depends on which task notices a cut first (tokio::select! is randomised)
+            text = re.sub(r"= err \w+", "= err", "".join(cl))
             h = hashlib.sha1(text.encode()).hexdigest()
             if cl[0].split()[2] == "handle":
                 nt = any((l.startswith("recv ") and " received " in l) or l.startswith(("dropprov", "cut ", "loseq"))
